@@ -1,5 +1,5 @@
 //@PROBE file=src/utils/clipping/bbox_own_areas.rs test=verif_probe_own_areas_c15 clauses=own_areas
-//@BOUND (a) every set of 1..=3 and 1200 pseudo-random sets of 4..=6 integer-coordinate axis-aligned boxes on a 12x12 grid (shared edges, identical and nested boxes included), exact share by unit-cell counting, tolerance 1e-3; (b) the same sets with every box given as its right-angle rotation (angle pi/2, sides swapped); (c) 600 pseudo-random sets of 2..=5 rotated boxes against a 160x160 point-sampling reference, tolerance 0.02, and the same sets with every box handed over after gen_vertices() and an in-place edit; (e) the integer sets of 1..=2 boxes scaled by 1e-3: fully covered boxes own nothing, range, order; (d) 300 sets of 2..=4 parallel elongated boxes (one common angle per set, never a right angle; displaced along their long side) against the same reference; all sets also reversed and rotated-left by one (order independence, tolerance 1e-4)
+//@BOUND (a) every set of 1..=3 and 1200 pseudo-random sets of 4..=6 integer-coordinate axis-aligned boxes on a 12x12 grid (shared edges, identical and nested boxes included), exact share by unit-cell counting, tolerance 1e-3; (b) the same sets with every box given as its right-angle rotation (angle pi/2, sides swapped); (c) 600 pseudo-random sets of 2..=5 rotated boxes against a 160x160 point-sampling reference, tolerance 0.02, and the same sets with every box handed over after gen_vertices() and an in-place edit; (f) 201 axis-aligned sets of 3..=5 boxes of very different sizes (1..60) against the sampling reference; (e) the integer sets of 1..=2 boxes scaled by 1e-3: fully covered boxes own nothing, range, order; (d) 300 sets of 2..=4 parallel elongated boxes (one common angle per set, never a right angle; displaced along their long side) against the same reference; all sets also reversed and rotated-left by one (order independence, tolerance 1e-4)
 #[cfg(test)]
 mod verif_probe_own_areas_c15 {
     // Bounded stand-in for the contract of exclusively_owned_areas + exclusively_owned_areas_normalized_shares
@@ -140,6 +140,20 @@ mod verif_probe_own_areas_c15 {
                 if failures.len() < 100000 { failures.push(format!("PROBE input: own-areas boxes(xc,yc,angle,aspect,height)={:?}: {}", boxes.iter().map(|b| (b.xc, b.yc, b.angle, b.aspect, b.height)).collect::<Vec<_>>(), e)); }
             }
         }
+        // boxes of very different sizes: a small box between two others does not shield them from one another (A, a small B to its right, a large C
+        // further right that reaches back over A), and 200 pseudo-random axis-aligned sets with sizes 1..60
+        {
+            let mut unequal: Vec<Vec<Universal2DBox>> = vec![vec![Universal2DBox::ltwh(0.0, 0.0, 10.0, 10.0), Universal2DBox::ltwh(19.0, 4.0, 2.0, 2.0), Universal2DBox::ltwh(8.0, -20.0, 50.0, 50.0)]];
+            for _ in 0..200 { let n = 3 + (next() % 3) as usize; unequal.push((0..n).map(|_| Universal2DBox::ltwh((next() % 60) as f32, (next() % 60) as f32 - 20.0, 1.0 + (next() % 60) as f32 + 0.37, 1.0 + (next() % 60) as f32 + 0.19)).collect()); }
+            for boxes in unequal.iter() {
+                let exp = sampled(boxes);
+                if exp.iter().any(|e| *e > 0.05 && *e < 0.95) { nontrivial += 1; }
+                cases += 1;
+                if let Err(e) = common(boxes, &exp, 0.02, "boxes of very different sizes, point sampling") {
+                    if failures.len() < 100000 { failures.push(format!("PROBE input: own-areas boxes(xc,yc,angle,aspect,height)={:?} [unequal sizes]: {}", boxes.iter().map(|b| (b.xc, b.yc, b.angle, b.aspect, b.height)).collect::<Vec<_>>(), e)); }
+                }
+            }
+        }
         // parallel elongated boxes: one common angle per set, displaced mainly along their long side (so that the centres are far
         // apart along the image axes although the boxes overlap), against the same point-sampling reference
         for it in 0..300u64 {
@@ -167,7 +181,7 @@ mod verif_probe_own_areas_c15 {
         // one line per failure class (input family x violated clause) with its first inputs
         let mut classes: std::collections::BTreeMap<String, (usize, Vec<String>)> = std::collections::BTreeMap::new();
         for f in failures.iter() {
-            let fam = if f.contains("[boxes edited after gen_vertices()]") { "edited-after-gen-vertices" } else if f.contains("[the same boxes as right-angle rotations]") { "right-angle-rotations" } else if f.contains("[parallel elongated boxes]") { "parallel-elongated" } else if f.contains("[frame-normalised integer boxes]") { "frame-normalised" } else if f.contains("[axis-aligned integer boxes") { "axis-aligned-integer" } else { "rotated-random" };
+            let fam = if f.contains("[boxes edited after gen_vertices()]") { "edited-after-gen-vertices" } else if f.contains("[the same boxes as right-angle rotations]") { "right-angle-rotations" } else if f.contains("[parallel elongated boxes]") { "parallel-elongated" } else if f.contains("[unequal sizes]") { "unequal-sizes" } else if f.contains("[frame-normalised integer boxes]") { "frame-normalised" } else if f.contains("[axis-aligned integer boxes") { "axis-aligned-integer" } else { "rotated-random" };
             let clause = f.split("own_areas.").nth(1).map(|r| r.split(|c: char| c == ':' || c == ' ').next().unwrap_or("?")).unwrap_or("?");
             let e = classes.entry(format!("{}/own_areas.{}", fam, clause)).or_insert((0, vec![]));
             e.0 += 1; if e.1.len() < 3 { e.1.push(f.clone()); }
